@@ -37,13 +37,15 @@ const (
 	OpStart  // thread start
 	OpPoint  // generic always-enabled point (driver calls, harness points)
 	OpJoin   // wait for threads
+	OpPoolGet // sync.Pool.Get (always enabled)
+	OpPoolPut // sync.Pool.Put (always enabled)
 )
 
 var opNames = map[int]string{
 	OpLock: "Lock", OpUnlock: "Unlock", OpRLock: "RLock", OpRUnlock: "RUnlock",
 	OpMapLoad: "Map.Load", OpMapStore: "Map.Store", OpMapLoadOrStore: "Map.LoadOrStore", OpMapDelete: "Map.Delete", OpMapRange: "Map.Range",
 	OpRecv: "Recv", OpSend: "Send", OpClose: "Close", OpWGAdd: "WG.Add", OpWGDone: "WG.Done", OpWGWait: "WG.Wait",
-	OpOnce: "Once.Do", OpOnceDone: "Once.done", OpStart: "start", OpPoint: "point", OpJoin: "join",
+	OpOnce: "Once.Do", OpOnceDone: "Once.done", OpStart: "start", OpPoint: "point", OpJoin: "join", OpPoolGet: "Pool.Get", OpPoolPut: "Pool.Put",
 }
 
 type pendingOp struct {
@@ -98,6 +100,9 @@ func (s Step) String() string {
 	}
 	if s.Obj > 0 {
 		n += fmt.Sprintf("#%d", s.Obj)
+	}
+	if s.Arg != 0 {
+		n += fmt.Sprintf("(k%d)", s.Arg)
 	}
 	return fmt.Sprintf("T%d %s", s.Thread, n)
 }
@@ -306,6 +311,15 @@ func CurThread() *Thread {
 		return e.cur
 	}
 	return nil
+}
+
+// LogLen returns the number of steps logged so far in the running execution.
+//go:norace
+func LogLen() int {
+	if e := active; e != nil {
+		return len(e.Log)
+	}
+	return 0
 }
 
 const watchdog = 60 * time.Second
